@@ -886,12 +886,19 @@ def load_impl(ctx):
 def run_model(ctx: Ctx, cases):
     """evaluate all cases in Coq; returns ({name: parsed}, {name: opaque list})"""
     out, opq = {}, {}
+    skipped = set()
     chunk, size, chunks = [], 0, []
     for c in cases:
         op = []
         vid = var_ids(c, ctx.rng)
         t = model_term(c, vid, op)
         opq[c["name"]] = op
+        if len(t) > (150_000 if ctx.quick else 600_000):
+            # a literal of this size costs coqc minutes and gigabytes; the case still runs implementation vs exact reference
+            ctx.cov["lists_too_large_for_model_run"] = ctx.cov.get("lists_too_large_for_model_run", 0) + 1
+            ctx.log(f"model run skipped for {c['name']}: literal of {len(t)} characters ({len(c['graphs'])} graphs)")
+            skipped.add(c["name"])
+            continue
         if chunk and (size + len(t) > 400_000 or len(chunk) >= 6):
             chunks.append(chunk)
             chunk, size = [], 0
@@ -907,6 +914,8 @@ def run_model(ctx: Ctx, cases):
             ctx.log(f"model chunk {i} took {_t.time() - t0:.1f}s: {[nm for nm, _ in ch]}")
         for (nm, _), v in zip(ch, vals):
             out[nm] = v
+    for nm in skipped:
+        out[nm] = "skipped"
     return out, opq
 
 
@@ -957,7 +966,9 @@ def run(ctx: Ctx) -> int:
     for c in cases:
         t1 = _t.time()
         mo = model_out.get(c["name"]) if model_usable and model_out else None
-        if model_usable and model_out and mo is None:
+        if mo == "skipped":
+            mo = None
+        elif model_usable and model_out and mo is None:
             ctx.broken.append(f"correspondence:model compile returned None on {c['name']}")
         check_case(ctx, c, mo, opq.get(c["name"], []), mods)
         if _t.time() - t1 > 5:
